@@ -660,7 +660,7 @@ class RGen:
 
 def gen_cases(rng, tier, units):
     """-> list of (case line, expectation)"""
-    n = 3000 if tier == "quick" else 60000
+    n = 3000 if tier == "quick" else 45000
     g = RGen(rng, units)
     out = []
     for i in range(n):
